@@ -69,6 +69,18 @@ CHECKS = {
             'Order-preserving renamings of random subsets (optionally after a warm-up execution) and host/guest pairs (whole chart or '
             'sub-tree of a donor), compared in lock-step up to the renaming.',
             'trusted: lock-step projection, fixed-width naming scheme', '§4 C17'),
+    'C14': ('exploration', 'runtime monitor: scripted time source (module attribute replaced from outside) + exact Fraction model / bounds',
+            'Random clock-operation sequences against an exact rational model (real time moving only between operations), against '
+            'bounds when the scripted source also advances inside operations, and SynchronizedClock vs the followed interpreter.',
+            'trusted: the Fraction model in vf/props/c14.py; dyadic values', '§4 C14'),
+    'C15': ('exploration', 'runtime monitor: delivery-history checker over a shared log with unique event ids, bind/detach at boundaries and inside callbacks',
+            '2-4 interpreters, random topologies (cycles, callables, duplicates); the deliveries observed at the target boundary must '
+            'equal sent_events x bindings in order; each sender later consumes its own internal events exactly once.',
+            'trusted: delivery log recorded by wrapping target.queue / callables before bind()', '§4 C15'),
+    'C18': ('fault_enumeration', 'runtime differential monitor with crash-point enumeration: control vs original vs pickle/deepcopy-restored interpreter',
+            'Snapshot at sampled/every macro-step boundary by pickle and deepcopy of the whole object graph (bound peer, property '
+            'statechart); lock-step comparison of everything observable afterwards, incl. the __old__ values read by contracts.',
+            'trusted: in-context log; boundaries and methods enumerated per case, cases sampled', '§4 C18'),
 }
 
 NOT_YET = {
